@@ -105,7 +105,8 @@ class Morphy:
             for word in wordnet.words():
                 pos = word.pos
                 pos_exc = exceptions[pos]
-                lemma, *others = word.forms()
+                # plain strings: Forms that differ in script are unequal but hash alike
+                lemma, *others = map(str, word.forms())
                 # store every lemma whether it has other forms or not
                 all_lemmas[pos].add(lemma)
                 # those with other forms map to the original lemmas
